@@ -253,8 +253,11 @@ def replay_mqtt(model, rec):
     prefixes = ["", "a", "a/b", "1", "1/1/1/1/1", "0/0", "x-1/2"]
     for pre in prefixes:
         gw = MQTTGateway(mock.MagicMock(), mock.MagicMock(), in_prefix=pre)
-        for line in ["1;2;1;0;3;55\n", "1;1;1;1;1;1\n", "255;255;3;0;3;\n", "0;0;0;0;0;a b\n"]:
+        for line in ["1;2;1;0;3;55\n", "1;1;1;1;1;1\n", "255;255;3;0;3;\n", "0;0;0;0;0;a b\n", "1;1;1;0;47;28/09/2026\n", "1;255;3;0;11;a/b\n", "1;1;1;0;47;/\n"]:
             topic, payload, qos = gw.parse_message_to_mqtt(line)
+            want_topic, want_payload = "/" + "/".join(line.rstrip("\n").split(";")[:5]), line.rstrip("\n").split(";")[5]
+            if (topic, payload) != (want_topic, want_payload):
+                return True, f"in_prefix {pre!r}: {line!r} is published as topic {topic!r} payload {payload!r}; prescribed {want_topic!r}, {want_payload!r}"
             back = gw.parse_mqtt_to_message(pre + topic, payload, qos)
             if back is None or back + "\n" != line:
                 return True, f"in_prefix {pre!r}: {line!r} published as {topic!r} comes back as {back!r}"
@@ -581,3 +584,246 @@ HOOKS += [
     (re.compile(r"^schedule_save|^save_on_schedule"), replay_schedule),
     (re.compile(r"data_received|handle_packet"), replay_framing),
 ]
+
+
+def replay_ota_history(model, rec):
+    """whole firmware downloads over a real gateway, also after a different image was registered under the same
+    type and version and after a restarted update: every block served must be the bytes of the image that is
+    registered at that moment, and the advertised block count and CRC must be those of that image"""
+    import binascii
+    import struct
+    from unittest import mock
+
+    import mysensors
+    from mysensors.ota import compute_crc
+
+    def download(gw, node, fw_type, fw_ver, image, order):
+        padded = image + b"\xff" * ((128 - len(image) % 128) % 128 if len(image) % 128 else (0 if image else 128))
+        req = binascii.hexlify(struct.pack("<5H", 9, 9, 1, 0, 0x0101)).decode()
+        r = gw.logic(f"{node};255;4;0;0;{req}\n")
+        if r is None:
+            return f"node {node}: no config response"
+        t, v, blocks, crc = struct.unpack("<4H", binascii.unhexlify(r.rstrip().split(";")[5])[:8])
+        data_len = blocks * 16
+        if (t, v) != (fw_type, fw_ver) or data_len < len(image) or data_len % 128:
+            return f"node {node}: config response advertises type {t} version {v} blocks {blocks} for an image of {len(image)} bytes"
+        got = {}
+        for blk in order(blocks):
+            breq = binascii.hexlify(struct.pack("<3H", fw_type, fw_ver, blk)).decode()
+            r = gw.logic(f"{node};255;4;0;2;{breq}\n")
+            if r is None:
+                return f"node {node}: no answer to the request for block {blk}"
+            pay = binascii.unhexlify(r.rstrip().split(";")[5])
+            if struct.unpack("<3H", pay[:6]) != (fw_type, fw_ver, blk):
+                return f"node {node}: block {blk} answered with header {struct.unpack('<3H', pay[:6])}"
+            got[blk] = pay[6:]
+        served = b"".join(got[b] for b in range(blocks))
+        if served[: len(image)] != image or set(served[len(image):]) - {0xFF}:
+            bad = next(b for b in range(blocks) if got[b] != (image + b"\xff" * data_len)[b * 16 : b * 16 + 16])
+            return f"node {node}: block {bad} is {got[bad].hex()}, the registered image has {(image + bytes([255]) * data_len)[bad * 16 : bad * 16 + 16].hex()} there"
+        if compute_crc(served) != crc:
+            return f"node {node}: advertised CRC {crc} is not the CRC of the served bytes"
+        return None
+
+    img_a = bytes(range(1, 41)) * 5
+    img_b = bytes(range(200, 100, -1)) * 3
+    for version in ("2.0", "2.2"):
+        gw = mysensors.Gateway(event_callback=None, protocol_version=version)
+        gw.tasks = mysensors.task.SyncTasks(gw.const, False, "x.json", gw.sensors, mock.MagicMock())
+        for n in (1, 2):
+            gw.logic(f"{n};255;0;0;17;{version}\n")
+        steps = [
+            ("image A for node 1", [1], img_a, lambda blocks: range(blocks - 1, -1, -1)),
+            ("image B under the same type and version for nodes 1 and 2", [1, 2], img_b, lambda blocks: list(range(blocks)) + [0]),
+            ("image A again", [2], img_a, lambda blocks: range(blocks)),
+        ]
+        for what, nodes, image, order in steps:
+            gw.tasks.ota.make_update(nodes, 3, 7, image)
+            for n in nodes:
+                why = download(gw, n, 3, 7, image, order)
+                if why:
+                    return True, f"version {version}, after registering {what}: {why}"
+    return False, "every download served the registered image"
+
+
+HOOKS.insert(0, (re.compile(r"^(OTAFirmware|prepare_fw|L\.header|L\.blocks).*frame\."), replay_ota_history))
+
+
+def replay_gateway_schedules(model, rec):
+    """the same inbound lines through a real threaded-flavour gateway under two arrival schedules - every line
+    handled before the next arrives, and all lines queued before the pump runs: what reaches the transport
+    must be the same lines (their order is F8's subject, so multisets are compared), and the state trees equal"""
+    from unittest import mock
+
+    import mysensors
+
+    histories = [
+        ["1;0;1;0;23;43", "2;0;1;0;23;43", "3;255;3;0;0;55"],
+        ["1;255;0;0;17;2.0", "1;9;2;0;2;", "4;9;2;0;2;", "1;255;3;0;6;0"],
+        ["1;255;0;0;17;2.0", "1;0;0;0;3;lamp", "1;0;1;0;2;1", "1;0;2;0;2;", "5;0;2;0;2;", "6;1;1;0;0;20"],
+        ["255;255;3;0;3;", "255;255;3;0;3;", "0;255;3;0;14;Gateway startup complete."],
+    ]
+
+    def run(version, lines, batch):
+        gw = mysensors.Gateway(event_callback=None, protocol_version=version)
+        sent = []
+        tr = mock.MagicMock()
+        tr.send = lambda m: sent.append(m) if m else None
+        gw.tasks = mysensors.task.SyncTasks(gw.const, False, "x.json", gw.sensors, tr)
+
+        def drain():
+            while gw.tasks.queue:
+                tr.send(gw.tasks.run_job())
+
+        for ln in lines:
+            gw.tasks.add_job(gw.logic, ln + "\n")
+            if not batch:
+                drain()
+        drain()
+        tree = {n: (s.type, s.protocol_version, {c: dict(ch.values) for c, ch in s.children.items()}) for n, s in gw.sensors.items()}
+        return sorted(sent), tree
+
+    for version in ("2.0", "2.2", "1.5"):
+        for lines in histories:
+            a, ta = run(version, lines, batch=False)
+            b, tb = run(version, lines, batch=True)
+            if a != b or ta != tb:
+                return True, (
+                    f"version {version}, lines {lines!r}: handled one at a time the gateway emits {a!r}; with all lines queued "
+                    f"before the pump runs it emits {b!r}" + ("" if ta == tb else f"; state trees differ: {ta!r} vs {tb!r}")
+                )
+    return False, "both arrival schedules emit the same lines and reach the same state"
+
+
+HOOKS.insert(0, (re.compile(r"^Gateway\..*frame\."), replay_gateway_schedules))
+
+
+def replay_late_dial_in(model, rec):
+    """connect attempts fail for longer than 2 x reconnect_timeout, then one succeeds: the first watchdog check
+    on the new link must not drop it"""
+    import asyncio
+    import socket
+    from unittest import mock
+
+    from mysensors import gateway_tcp as GT
+
+    now = [0.0]
+
+    def sleep(d):
+        now[0] += d
+
+    if "async" not in rec["name"]:
+        attempts = []
+
+        def create_connection(*a, **k):
+            attempts.append(now[0])
+            if len(attempts) <= 3:
+                raise socket.timeout("timed out")
+            return mock.MagicMock()
+
+        with mock.patch("time.time", lambda: now[0]), mock.patch("time.sleep", sleep), mock.patch.object(
+            socket, "create_connection", create_connection
+        ), mock.patch.object(GT, "TCPTransport", mock.MagicMock()):
+            gw = GT.TCPGateway("127.0.0.1", reconnect_timeout=10.0)
+            gw.tasks.add_job = lambda *a: None
+            GT.sync_connect(gw.tasks.transport)
+            now[0] += 0.02
+            try:
+                gw.check_connection()
+            except OSError as e:
+                return True, f"threaded TCP: dial-in succeeds at t={attempts[-1]} after {len(attempts) - 1} failed attempts (reconnect_timeout 10 s); the first watchdog check on the new link raises OSError('{e}')"
+        return False, "the new link survives its first watchdog check"
+
+    async def scenario():
+        with mock.patch("time.time", lambda: now[0]):
+            gw = GT.AsyncTCPGateway("127.0.0.1", reconnect_timeout=10.0)
+        gw.tasks.add_job = lambda *a: None
+        calls = []
+
+        async def wait_for(aw, timeout):
+            calls.append(now[0])
+            if hasattr(aw, "close"):
+                aw.close()
+            if len(calls) <= 3:
+                now[0] += timeout
+                raise asyncio.TimeoutError()
+            return mock.MagicMock(), mock.MagicMock()
+
+        async def asleep(d):
+            now[0] += d
+
+        dropped = []
+        proto = mock.MagicMock()
+        proto.transport.close = lambda: dropped.append(now[0])
+        gw.tasks.transport.protocol = proto
+        loop = asyncio.get_running_loop()
+        with mock.patch("time.time", lambda: now[0]), mock.patch.object(asyncio, "wait_for", wait_for), mock.patch.object(
+            asyncio, "sleep", asleep
+        ), mock.patch.object(loop, "create_connection", lambda *a, **k: mock.MagicMock()), mock.patch.object(
+            loop, "call_later", lambda *a, **k: mock.MagicMock()
+        ):
+            try:
+                await GT.async_connect(gw.tasks.transport)
+            except OSError as e:
+                return True, f"asyncio TCP: dial-in after {len(calls) - 1} timed-out attempts; the first watchdog check raises OSError('{e}')"
+        if dropped:
+            return True, f"asyncio TCP: dial-in succeeds at t={calls[-1]} after {len(calls) - 1} timed-out attempts (reconnect_timeout 10 s); the first watchdog check closes the new link at once"
+        return False, "the new link survives its first watchdog check"
+
+    return asyncio.run(scenario())
+
+
+HOOKS.insert(0, (re.compile(r"tcp_connect\.connected"), replay_late_dial_in))
+
+
+def replay_save_faults(model, rec):
+    """inject an I/O error at every fsync / rename / remove of a real save: a save that raised must leave the
+    state marked as unsaved, and the next save must put the current state on disk"""
+    import os
+    import tempfile
+    from unittest import mock
+
+    from mysensors.persistence import Persistence
+    from mysensors.sensor import Sensor
+
+    m = re.search(r"fmt=(json|pickle)", rec["name"])
+    for ext in (m.group(1),) if m else ("json", "pickle"):
+        for prior in (False, True):
+            for op in ("fsync", "rename", "remove"):
+                for k in (0, 1):
+                    with tempfile.TemporaryDirectory() as d:
+                        path = os.path.join(d, "net." + ext)
+                        net = _network()
+                        p = Persistence(net, mock_schedule, path)
+                        if prior:
+                            p.save_sensors()
+                        net[11] = Sensor(11)
+                        p.need_save = True
+                        real = getattr(os, op)
+                        seen = [0]
+
+                        def faulty(*a, _real=real, **kw):
+                            seen[0] += 1
+                            if seen[0] == k + 1:
+                                raise OSError(28, "No space left on device")
+                            return _real(*a, **kw)
+
+                        raised = False
+                        with mock.patch.object(os, op, faulty):
+                            try:
+                                p.save_sensors()
+                            except OSError:
+                                raised = True
+                        if not raised:
+                            continue
+                        if not p.need_save:
+                            return True, f"{ext}, {'with' if prior else 'without'} a prior file: os.{op} call #{k + 1} fails, save_sensors raises, and need_save is False although node 11 is not on disk: the next scheduled save and stop() write nothing"
+                        p.save_sensors()
+                        loaded = {}
+                        Persistence(loaded, mock_schedule, path).safe_load_sensors()
+                        if _view(loaded) != _view(net):
+                            return True, f"{ext}: after os.{op} call #{k + 1} failed, the next save does not put the current state on disk"
+    return False, "every failing save leaves the state marked unsaved and the next save persists it"
+
+
+HOOKS.insert(0, (re.compile(r"^Persistence\.save_sensors.*(still-dirty|raises)|^L\.next-save"), replay_save_faults))
